@@ -898,6 +898,16 @@ pub fn gen_stdin(rng: &mut Rng, big: bool) -> Case {
         opts.stdin_filepath = Some(rng.pick(&["sub/x.lua", "keep.lua", "sub/new.lua", "ignored/y.lua", "sub/ignored/z.lua"]).to_string());
     }
     opts.respect_ignores = rng.chance(50);
+    if rng.chance(8) {
+        // --stdin-filepath names a symbolic link to a file outside the project: the path as
+        // given is what the ignore rules and the configuration search see
+        w.files.insert("outer/elsewhere/real.lua".into(), b"local   real = 1\n".to_vec());
+        w.symlinks.insert(wpath("", "lk.lua"), "../elsewhere/real.lua".into());
+        opts.stdin_filepath = Some("lk.lua".into());
+        if rng.chance(60) {
+            w.files.insert(wpath("", ".styluaignore"), b"lk.lua\n".to_vec());
+        }
+    }
     if rng.chance(20) {
         opts.overrides = random_option_set(rng, 2);
     }
